@@ -38,9 +38,11 @@ func init() {
 			"collection names (from the live ActivityPubCollections); holders = *Object/*Actor/Object/Actor with each collection property unset / explicit IRI / explicit embedded collection; " +
 			"complete cross product; non-trivial = owner with a non-empty path or holder with an explicit property",
 		Assumptions: []string{"'equivalent' is IRI.Equals with scheme check (validated separately by C14)", "actors are given a specific actor type (Person/Service)"},
-		Bound:       func(string) string { return "complete: 72 owners x 8 names (round trips) + 72 owners (negative) + holder matrix 4 forms x 8 names x 3 states x 6 ids (same in both tiers)" },
-		Shards:      8,
-		Run:         c15Run,
+		Bound: func(string) string {
+			return "complete: 72 owners x 8 names (round trips) + 72 owners (negative) + holder matrix 4 forms x 8 names x 3 states x 6 ids (same in both tiers)"
+		},
+		Shards: 8,
+		Run:    c15Run,
 	})
 }
 
